@@ -82,7 +82,7 @@ def run(tier):
     big = [i for i in range(n_tlc) if classes[-1] in plans[i]["blocks"]]
     for i in rng.sample(big, 16 if quick else 100) + rng.sample(range(n_tlc), 4 if quick else 50):
         p = dict(plans[i])
-        p.update({"reps": 200, "base": 100, "walk": False, "src": "tlc-workload-long", "os": rng.choice("bdd"), "rand_place": rng.random() < 0.3,
+        p.update({"reps": 200, "base": 100, "walk": False, "src": "tlc-workload-long", "os": rng.choice("bdd"),
                   "seed": rng.randrange(1, 1 << 40)})
         plans.append(p)
     # boundary-size workloads (random multisets from the C03 alphabet), random placement
@@ -124,6 +124,11 @@ def run(tier):
         p = {"kind": "work", "blocks": plans[i]["blocks"], "free": plans[i]["free"], "reps": 60, "base": 30, "real": True,
              "spacers": len(real_plans) % 2 == 1, "src": "real-os-workload"}
         real_plans.append(p)
+    # a repetition is a repetition only if the environment repeats too: where the simulated OS
+    # draws a new random placement for every mapping, SteadyState is not judged (base = reps)
+    for p in plans:
+        if p.get("rand_place"):
+            p["base"] = p["reps"]
     # debug build (assertions on) for the TLC workloads, release build for the rest;
     # processed in chunks so that memory stays bounded
     jobs = [("debug", bin_dbg, plans[:n_tlc]), ("release", bin_rel, plans[n_tlc:])]
@@ -209,6 +214,7 @@ def run(tier):
         "Envelope (workload runs only): footprint <= 2 x peak padded demand + 2 x trim threshold, padded demand of a block = size + 2 x align + 256 + granularity",
         "NoGratuitousMap: an OS request is gratuitous if size + 2 x align + 256 bytes fit into one block-free extent of a single OS-granted piece",
         "real-OS runs (raw syscall wrappers against the real kernel): footprint = growth of the process' VmSize, which also contains whatever the recorder itself maps (its output buffer is pre-reserved); only SteadyState is judged there (60 repetitions, baseline 30)",
+        "SteadyState is judged only where the OS policy is the same in every repetition (always below / above / disjoint); runs with a random placement per mapping are judged by Envelope, NoGratuitousMap, ReleaseOnce only",
         "never trimming alone does not violate the property as stated (held memory stays bounded by peak demand) and is not flagged",
         "multi-threaded runs: 2-4 std threads share one Dlmalloc behind tiny_std::sync::Mutex (lock, one call, unlock; the recorder sits in the same critical section so the log order is the execution order) - the composition of the private GlobalDlMalloc wrapper, which itself is only compiled with feature global-allocator and cannot be enabled in a std-linked harness; thread interleavings are whatever the OS scheduler produces (not controlled), therefore SteadyState is not judged on these runs (the concurrent demand differs between repetitions), Envelope / NoGratuitousMap / ReleaseOnce are",
     ]
